@@ -95,16 +95,18 @@ def grd5(P, R, L):
     # `live.extend(version_set.get_live_files())` is the loop of inserts in one call
     ext = [c for c in b.calls() if not b.is_cleanup(c.bb) and (c.name or "").endswith("::extend") and len(c.args) > 1 and
            any(o.kind == "call" and o.name == "versioning::version_set::VersionSet::get_live_files" for o in origins(b, c.args[1]))]
-    ok = bool(clones) and bool(glf) and (bool(ins) or bool(ext))
+    fe = [c for c in b.calls() if not b.is_cleanup(c.bb) and (c.name or "").endswith("::for_each")]
+    ok = bool(clones) and bool(glf) and (bool(ins) or bool(ext) or bool(fe))
     if ok:
         live = {c.dest["l"] for c in clones}
         from ..rules import forward_aliases
         la = set()
         for l in live:
             la |= forward_aliases(b, l)
-        by_loop = any(pair.roots(b, i.args[0]) & la for i in ins) and all(in_cycle(b, i.bb) for i in ins if pair.roots(b, i.args[0]) & la)
+        by_loop = bool(ins) and any(pair.roots(b, i.args[0]) & la for i in ins) and all(in_cycle(b, i.bb) for i in ins if pair.roots(b, i.args[0]) & la)
         by_extend = any(pair.roots(b, e.args[0]) & la for e in ext)
-        ok = (by_loop or by_extend) and bool(live_locals & la)
+        by_for_each = _live_set_filled_by_for_each(P, b, la)
+        ok = (by_loop or by_extend or by_for_each) and bool(live_locals & la)
     R.check("GRD-5", K.REMOVE_OBSOLETE + "|live-set", ok, K.where(b),
             "the set tested by contains() is the clone of tables_in_use extended in a loop with get_live_files()", "clones=%d get_live_files=%d inserts=%d" % (len(clones), len(glf), len(ins)))
     g = P.body("versioning::version_set::VersionSet::get_live_files")
@@ -126,6 +128,41 @@ def grd5(P, R, L):
         ok = bool(it) and bool(ins) and all(in_cycle(g, i.bb) for i in ins) and rng is not None and rng[0] == "0" and rng[1] == "7"
         R.check("GRD-5", g.path + "|all-versions-all-levels", ok, K.where(g),
                 "get_live_files iterates every version of the list and levels 0..MAX_NUM_LEVELS (7)", "iter sites %d, level range %s" % (len(it), rng))
+
+
+def _live_set_filled_by_for_each(P, b, la):
+    """`version_set.get_live_files().into_iter().for_each(|f| { live.insert(f); })`: the loop of inserts as an iterator adapter - the
+    receiver chain starts at get_live_files(), the closure written at the call site inserts its argument into the captured live set"""
+    GLF = "versioning::version_set::VersionSet::get_live_files"
+    for c in b.calls():
+        if b.is_cleanup(c.bb) or not (c.name or "").endswith("::for_each") or len(c.args) != 2:
+            continue
+        recv, from_glf = [c.args[0]], False
+        for _ in range(4):
+            nxt = []
+            for op in recv:
+                for o in origins(b, op):
+                    if o.kind == "call" and o.name == GLF:
+                        from_glf = True
+                    elif o.kind == "call" and o.site is not None and o.site.args and (o.name or "").rsplit("::", 1)[-1] in ("into_iter", "iter", "copied", "cloned"):
+                        nxt.append(o.site.args[0])
+            recv = nxt
+        if not from_glf:
+            continue
+        for ao in origins(b, c.args[1]):
+            cb = P.bodies.get(ao.name) if ao.kind == "agg" and ao.extra is not None else None
+            if cb is None or cb.kind != "closure":
+                continue
+            fs = ao.extra[1]["rv"].get("fields") or []
+            for i in cb.calls():
+                if cb.is_cleanup(i.bb) or i.name != "std::collections::HashSet::insert" or len(i.args) != 2:
+                    continue
+                ups = [o.name for o in origins(cb, i.args[0]) if o.kind == "upvar"]
+                arg_is_item = any(o.kind == "param" and o.name == 2 for o in origins(cb, i.args[1]))
+                for u in ups:
+                    if u in fs and len(fs) == len(ao.extra[1]["rv"]["ops"]) and arg_is_item and pair.roots(b, ao.extra[1]["rv"]["ops"][fs.index(u)]) & la:
+                        return True
+    return False
 
 
 def _const_value(P, path):
